@@ -24,9 +24,12 @@ from .units import Unit
 class Opaque:
     """⊤: a value the analysis knows nothing about (but remembers why)."""
 
-    def __init__(self, why: str, cond_term=None):
+    def __init__(self, why: str, cond_term=None, shape_of_events: bool = False):
         self.why = why
         self.cond_term = cond_term
+        # a number read off the shape of a possibly-binned operand (size, len, shape): it counts bins for event data and
+        # elements for dense data, so a decision taken on it may differ between the two
+        self.shape_of_events = shape_of_events
 
     def __repr__(self):
         return f'⊤({self.why})'
@@ -1325,7 +1328,7 @@ class Interp:
         if isinstance(a, SVar) or isinstance(b, SVar):
             return self.model.compare(self, sym, a, b, node)
         if isinstance(a, Opaque) or isinstance(b, Opaque):
-            return Opaque(f'{sym} on ⊤')
+            return Opaque(f'{sym} on ⊤', shape_of_events=any(getattr(x, 'shape_of_events', False) for x in (a, b)))
         if isinstance(a, Unit) or isinstance(b, Unit):
             if sym == '==':
                 return self.model.unit_eq(self, a, b, node)
@@ -1444,7 +1447,13 @@ class Interp:
                 if isinstance(val, str | int | float | bool) or val is None:
                     parts.append(format(val, '') if not v.format_spec else str(val))
                 else:
-                    return Opaque('f-string of abstract value')
+                    # a model may know how the abstract value prints (e.g. scipp's compact value(uncertainty) notation)
+                    fmt = getattr(self.model, 'format_value', None)
+                    spec = self.eval(v.format_spec, env, mi) if v.format_spec is not None else ''
+                    text = fmt(self, val, spec if isinstance(spec, str) else None, v.conversion, v) if fmt is not None else None
+                    if not isinstance(text, str):
+                        return Opaque('f-string of abstract value')
+                    parts.append(text)
         return ''.join(parts)
 
     def ex_FormattedValue(self, e, env, mi):
